@@ -162,6 +162,10 @@ func getGrafanaNetAddr(addr string) (string, string, string) {
 // NewGrafanaNet creates a special route that writes to a grafana.net datastore
 // We will automatically run the route and the destination
 func NewGrafanaNet(key string, matcher matcher.Matcher, cfg GrafanaNetConfig) (Route, error) {
+	// concurrency is the number of shards (a divisor); the buffer is split over them
+	if cfg.Concurrency <= 0 || cfg.BufSize < 0 {
+		return nil, errors.New("concurrency must be > 0 and bufSize must be >= 0")
+	}
 	schemas, err := getSchemas(cfg.SchemasFile)
 	if err != nil {
 		return nil, err
